@@ -72,6 +72,26 @@ def run(ctx):
     run_ledger(ctx, "C14.R1", "closed panic ledger of the command parser and the scripted readers",
                [READ_FROM, ARG_READ, STDIN_READ], stop=[CR_READ], floor=30)
 
+    # the ledger discharges the parser's "there is a first token" expectation by the emptiness test in read_from; that only holds if the
+    # test looks at the very string handed to the parser, after trimming
+    ctx.rule("C14.R1b", "the line handed to the parser is the trimmed line that was tested for emptiness", floor=1)
+    rf_ = ctx.fn(READ_FROM)
+    def core_(e):
+        while isinstance(e, tuple) and e and e[0] in ("ref", "deref", "cast"):
+            e = e[1] if e[0] in ("ref", "deref") else e[3]
+        return e
+    empt = [core_(rf_.expr(t["args"][0], 10)) for b, t, c in rf_.calls() if c and c.endswith("str>::is_empty")]
+    tf_ = [core_(rf_.expr(t["args"][0], 10)) for b, t, c in rf_.calls() if c == TRY_FROM]
+    ctx.need(len(empt) == 1 and len(tf_) == 1, "one is_empty test and one try_from call in read_from")
+    ctx.instance(1)
+    trimmed = empt[0][0] == "call" and str(empt[0][1]).endswith("str>::trim")
+    ok = trimmed and empt[0] == tf_[0]
+    ctx.oblig(ok, {"tested for emptiness": expr_str(empt[0], 80), "parsed": expr_str(tf_[0], 80)}, "same trimmed value")
+    if not ok:
+        ctx.violation("empty-test-value", rf_.file_line(), "read_from tests `%s` for emptiness but parses `%s`: a line of blanks passes the test, is trimmed to nothing, and the "
+                      "parser's `expect(\"missing command name\")` panics" % (expr_str(empt[0], 80), expr_str(tf_[0], 80)))
+    ctx.finish_rule()
+
     # ------------------------------------------------------------------ R2
     ctx.rule("C14.R2", "parsing a line has no effect: no exit, no output, no state write", floor=1)
     reach = ctx.cg.reachable([TRY_FROM])
